@@ -197,6 +197,8 @@ impl<'a> LexIterator<'a> {
         loop_fn: &mut dyn FnMut(&mut LexIterator, &Lex) -> ParseResult<()>,
     ) -> ParseResult<()> {
         while let Some(&lex) = self.it.peek() {
+            #[cfg(feature = "verif")]
+            crate::verif_hooks::bump(1);
             if !check_fn(lex) || lex.token == Token::Eof {
                 break;
             }
